@@ -136,6 +136,17 @@ func verifC14Options(label string, unrelated bool) verifC14Opts {
 	return verifC14Opts{O: o, States: st}
 }
 
+// verifC14Host draws a from/to value: not stated, or a host name peculiar to its position. Which block's
+// value wins depends only on whether a value is stated and on its identity; route syntax
+// (what url.Parse / regexp.Compile make of the text) is C13's subject.
+func verifC14Host(label string) string {
+	if zz.Choose(label, 2) == 0 {
+		return ""
+	}
+	// a host name of its own per position in the document
+	return strings.Replace(label, ".", "-", -1) + ".example.test"
+}
+
 // first stated list, most specific block first
 func verifC14First(lists ...[]string) []string {
 	for _, l := range lists {
@@ -174,7 +185,7 @@ func VerifC14Extra()      { verifC14Resolve(1) }
 func VerifC14ExtraLists() { verifC14Resolve(2) }
 
 func verifC14Resolve(mode int) {
-	str := func(l string) string { return zz.NondetString(l) }
+	str := verifC14Host
 	block := func(label string, types []string) (*UpstreamConfig, verifC14Opts, *RouteConfig, verifC14Opts) {
 		var o verifC14Opts
 		if mode != 2 {
@@ -318,7 +329,7 @@ func VerifC14TwoServices() {
 		opts[i] = verifC14Options(label, false)
 		names[i] = zz.NondetString(label + ".name")
 		zz.Assume(zz.And(!strings.Contains(names[i], " "), !strings.Contains(names[i], "\t"), !strings.Contains(names[i], "\n"), !strings.Contains(names[i], "\r")))
-		froms[i], tos[i] = zz.NondetString(label+".from"), zz.NondetString(label+".to")
+		froms[i], tos[i] = verifC14Host(label+".from"), verifC14Host(label+".to")
 		doc = append(doc, &ServiceConfig{Service: names[i], ClusterConfigs: map[string]*UpstreamConfig{
 			"default": {RouteConfig: RouteConfig{From: froms[i], To: tos[i], Options: opts[i].O}}}})
 	}
